@@ -3,11 +3,17 @@ PROP = {'counts': {'quick': 2, 'thorough': 20},
  'timeout': {'quick': 600, 'thorough': 3000},
  'model_input': 'both',
  'shrink': False,
- 'rule': 'one case = one dynamic probe: a real primary (engine + replication.Manager, heartbeat interval/timeout '
+ 'rule': 'static, regenerated on every run: gen/Blocking.v (gofacts/blocking.go: what the write path can block '
+         'on) AND, since w-C15L, the replication slice of the C07 lock table gen/Locks.v (gofacts/locks.go, '
+         'type-checked: every written field of Primary / ReplicaSession / WALBatcher / WALEntriesBuffer / '
+         'heartbeatManager / replication.Manager with the locks held at each access; '
+         'ReplLocksFacts.repl_fields_protected, repl_sessions_under_primary_mu, repl_lock_order_acyclic, '
+         'repl_no_self_nesting by vm_compute: a map write of the session map under a shared lock, a new lock '
+         'nesting cycle or a re-acquired replication lock breaks them). Dynamic: one case = one dynamic probe: a real primary (engine + replication.Manager, heartbeat interval/timeout '
          'shortened through PrimaryConfig.HeartbeatConfig), real healthy replicas, and one misbehaving raw gRPC '
          'client of the replication service (never reads its stream / reads but never acknowledges / reads '
          'slowly / rotated log with one lagging and two continuously acknowledging replicas / connection reset through a TCP forwarder / connection frozen through the forwarder / none: '
-         'continuous writer against healthy replicas only); 320+ Put of 16 KB (more than the HTTP/2 flow-control '
+         'continuous writer against healthy replicas only / session-churn: in a CHILD process, 48 raw replicas that stream and acknowledge and whose streams all end on one signal, ten rounds, under two writers and a GetNodeInfo+Status reader, judged by the child\'s stderr and exit status: a runtime fatal error such as concurrent map iteration and map write is the failure); 320+ Put of 16 KB (more than the HTTP/2 flow-control '
          'windows), Get and two-key transactions, each under a 5 s watchdog; when an operation does not return '
          'the goroutine stacks are captured and the call chain of the blocked operation is checked by the '
          'extracted table functions (BlockView.known_blocked_path / known_inversion) against gen/Blocking.v, '
@@ -15,7 +21,19 @@ PROP = {'counts': {'quick': 2, 'thorough': 20},
          'stalled/cut peer leaves GetNodeInfo within timeout + 2 intervals + 3 s, every healthy replica '
          'converges within 40 s; non-trivial = more than 256 KB written (beyond the flow-control windows) or an operation blocked; distinct by '
          'case text',
- 'assumptions': ['the static table is syntactic (gofacts/blocking.go): block-structured lock sets, one lock per '
+ 'trusted_base': ['the translators gofacts/blocking.go (syntactic call graph / lock sets) and gofacts/locks.go (lock '
+                  'table; for C15 its rows of replication.* locations and its whole lock-order graph): that every '
+                  'execution of the Go code is a trace conforming to the tables is their claim, not a theorem; '
+                  'approximations of the lock table = items 1-13 of the trusted base of C07'],
+ 'assumptions': ['the lock table (gofacts/locks.go) covers the PRIMARY side of pkg/replication only (replica.go, '
+                 'state.go left out); its approximations are items 1-13 of the trusted base of C07 (one lock / '
+                 'location per (type, field); roots = exported methods of replication.Primary and Manager, gRPC '
+                 'handlers without the no-close assumption, WAL observer callbacks with WAL.mu held; fresh locals '
+                 'private until handed over); the four session fields on its allow list marked FINDING '
+                 '(ReplicaSession.Connected/Active/LastAckSequence/LastActivity) are genuine data races of kevo that '
+                 'the statement excludes: they cannot abort the process (flags, a counter, a timestamp) but a reader '
+                 'may see a stale or torn value',
+                 'the blocking table is syntactic (gofacts/blocking.go): block-structured lock sets, one lock per '
                  '(type, field), interface calls resolved to every implementing type of pkg/wal, '
                  'pkg/engine/storage, pkg/replication; its approximations are listed in the generated file',
                  'probes use loopback TCP; grpc-go default flow-control windows'],
